@@ -123,4 +123,17 @@ let () =
     let mode = wrap_mode_of_int (rd_int r) in let w = rd_z r in let ic = rd_z r in
     let extra = rd_str r in let empty = rd_str r in let t = rd_str r in
     wr_m wr_str (fill_text t mode w extra empty ic));
-  port "split_frontmatter" (fun r -> let (a, b) = split_frontmatter (rd_str r) in wr_str a; wr_str b)
+  port "split_frontmatter" (fun r -> let (a, b) = split_frontmatter (rd_str r) in wr_str a; wr_str b);
+  (* fs_prog: k jobs, each: dst tmp backup chunks  -> list of ops: kind path [path|chunk] *)
+  port "fs_prog" (fun r ->
+    let js = rd_list (fun r -> let d = rd_str r in let t = rd_str r in let b = rd_bool r in
+                               let cs = rd_strs r in { j_dst = d; j_tmp = t; j_backup = b; j_chunks = cs }) r in
+    wr_list (function
+      | Create p -> wr_int 0; wr_str p
+      | Append (p, c) -> wr_int 1; wr_str p; wr_str c
+      | BackupMove (a, b) -> wr_int 2; wr_str a; wr_str b
+      | Rename (a, b) -> wr_int 3; wr_str a; wr_str b) (run_prog js));
+  port "target_okb" (fun r ->
+    let backup = rd_bool r in let nw = rd_str r in
+    let old = rd_opt rd_str r in let cd = rd_opt rd_str r in let co = rd_opt rd_str r in
+    wr_bool (target_okb backup nw old cd co))
